@@ -281,7 +281,10 @@ class HttpParser:
             # body indication received.
             elif self.state == httpParserStates.HEADERS_COMPLETE and \
                     not (self._content_expected or self._is_chunked_encoded) and \
-                    raw == b'':
+                    (raw == b'' or self.has_header(b'content-length')):
+                # Either nothing follows the headers or the message
+                # declares an empty body (Content-Length: 0), in which case
+                # any following bytes are not part of this message.
                 self.state = httpParserStates.COMPLETE
         self.buffer = None if raw == b'' else raw
 
